@@ -114,11 +114,19 @@ class FindIdentifiers(_ast_util.NodeVisitor):
             self.visit(n)
         self._visit_function(node, False)
 
+    def _visit_generators(self, node):
+        # targets first, so that they are known as local names when the
+        # conditions and the element expression are visited
+        for comp in node.generators:
+            self.visit(comp.target)
+            self.visit(comp.iter)
+            for if_ in comp.ifs:
+                self.visit(if_)
+
     def visit_ListComp(self, node):
         if self.in_function:
-            for comp in node.generators:
-                self.visit(comp.target)
-                self.visit(comp.iter)
+            self._visit_generators(node)
+            self.visit(node.elt)
         else:
             self.generic_visit(node)
 
@@ -126,9 +134,9 @@ class FindIdentifiers(_ast_util.NodeVisitor):
 
     def visit_DictComp(self, node):
         if self.in_function:
-            for comp in node.generators:
-                self.visit(comp.target)
-                self.visit(comp.iter)
+            self._visit_generators(node)
+            self.visit(node.key)
+            self.visit(node.value)
         else:
             self.generic_visit(node)
 
